@@ -448,6 +448,12 @@ func c07r2(c *Ctx) {
 				root = root.Parent()
 			}
 			_, ok := s.allow[shortFn(root)]
+			if !ok {
+				if owner := p.extractedFrom(root, func(f *ssa.Function) bool { _, in := s.allow[shortFn(f)]; return in }, 2); owner != nil {
+					ok = true
+					root = owner
+				}
+			}
 			c.Check("reader of "+s.typ+"."+s.field+":"+shortFn(root), acc.Pos, ok, s.typ+"."+s.field+" is read here for what may be a scoping decision; the code requires visibility to go through serviceExportTo/IsServiceVisible (mesh defaults, ServiceEntry clamp) resp. getExportedDestinationRuleFromNamespace")
 		}
 		c.Check("readers of "+s.typ+"."+s.field+" found", fv.Pos(), n >= 2, "fewer readers than confirmed by hand")
